@@ -489,6 +489,65 @@ func (x *Exec) evalCall(n *SCall, env *Env) Val {
 			}
 		}
 		x.fail("addr(%s): no such address-taken variable", id.Name)
+	case "fieldaddr": // fieldaddr(p, "f"): the address of field f of the struct p points to
+		v := arg(0)
+		fs, ok := n.Args[1].(*SStr)
+		if !ok || v.GT == nil {
+			x.fail("fieldaddr(pointer, \"field\")")
+		}
+		pt, ok := v.GT.Underlying().(*types.Pointer)
+		if !ok {
+			x.fail("fieldaddr of non-pointer")
+		}
+		key, cs := e.heapKeyFor(pt.Elem())
+		si := e.structs[cs]
+		if si == nil {
+			x.fail("fieldaddr of non-struct")
+		}
+		for i, fn := range si.FNames {
+			if fn == fs.V {
+				l := &Loc{Key: key, Ref: v.T, RootS: cs, RootT: pt.Elem(), Path: []PathElem{e.fieldElem(cs, i)}}
+				return x.materialize(Val{Sort: "Int", Loc: l, GT: types.NewPointer(si.FTypes[i])})
+			}
+		}
+		x.fail("fieldaddr: no field %s", fs.V)
+	case "visited": // visited(N): the ghost set of keys map-range loop N has already visited
+		lit, ok := n.Args[0].(*SInt)
+		if !ok || x.fn == nil {
+			x.fail("visited() needs a loop ordinal")
+		}
+		for h, li := range x.loops {
+			if fmt.Sprint(li.ordinal) != lit.V {
+				continue
+			}
+			for _, in := range h.Instrs {
+				if nx, ok := in.(*ssa.Next); ok {
+					if rg, ok := nx.Iter.(*ssa.Range); ok {
+						k := fmt.Sprintf("L:iter_%s_%d", sanitize(rg.Name()), rg.Block().Index)
+						return Val{T: e.heapGet(env.st, k), Sort: e.heapSort[k]}
+					}
+				}
+			}
+		}
+		x.fail("visited(%s): not a map-range loop", lit.V)
+	case "rangemap": // rangemap(N): the map that map-range loop N iterates over
+		lit, ok := n.Args[0].(*SInt)
+		if !ok || x.fn == nil {
+			x.fail("rangemap() needs a loop ordinal")
+		}
+		for h, li := range x.loops {
+			if fmt.Sprint(li.ordinal) != lit.V {
+				continue
+			}
+			for _, in := range h.Instrs {
+				if nx, ok := in.(*ssa.Next); ok {
+					if rg, ok := nx.Iter.(*ssa.Range); ok {
+						return x.materialize(x.val(rg.X))
+					}
+				}
+			}
+		}
+		x.fail("rangemap(%s): not a map-range loop", lit.V)
 	case "rangekey": // rangekey(N): the key variable of map-range loop N
 		lit, ok := n.Args[0].(*SInt)
 		if !ok || x.fn == nil {
